@@ -236,14 +236,6 @@ def decide(pid, tier, seed):
             out_lines.append('KNOWN-FINDING: property=%s %s' % (pid, of['what']))
         else:
             undecided.append('finding %s: recorded input no longer reproduces (%s) but obligation %s still fails' % (of['id'], conf.get('why', ''), f['obligation']))
-    real_violations = []
-    for f in violations:
-        rp = replay.search(pid, f, seed)
-        if f.get('scaffolding') and not rp.get('found'):
-            undecided.append('%s: proof hint no longer fits (%s) and no failing input found' % (f['obligation'], f['clause'][:80]))
-            continue
-        f['replay'] = rp
-        real_violations.append(f)
     e3_known = {}
     for of in open_findings:
         if of.get('e3'):
@@ -255,6 +247,15 @@ def decide(pid, tier, seed):
                 notes.append('known finding %s no longer reproduces on this tree (%s)' % (of['id'], conf.get('why', '')))
             for inp in of.get('inputs', [of['input']]):
                 e3_known.setdefault(of['e3'], []).append(inp)
+    real_violations = []
+    for f in violations:
+        # every recorded input of this property's open findings is skipped whatever search the function name maps to
+        rp = replay.search(pid, f, seed, skip=[i for v in e3_known.values() for i in v] or None)
+        if f.get('scaffolding') and not rp.get('found'):
+            undecided.append('%s: proof hint no longer fits (%s) and no failing input found' % (f['obligation'], f['clause'][:80]))
+            continue
+        f['replay'] = rp
+        real_violations.append(f)
     for name in cfg.get('e3_always', []):
         # bounded stand-in for a function that is outside the verifiers' reach: labelled bounded, never counted as proved
         rp = replay.search(pid, {'fn': name}, seed, skip=e3_known.get(name))
@@ -269,7 +270,8 @@ def decide(pid, tier, seed):
         # the verifier could not decide: bounded stand-in (E3 enumerators on the real crate); it can only
         # ever add a violation that comes with a reproducing input, never remove an undecided verdict
         for name in cfg.get('e3', []):
-            rp = replay.search(pid, {'fn': name}, seed)
+            # inputs of recorded open findings are skipped here too (they are reported as KNOWN-FINDING above, never as a new violation)
+            rp = replay.search(pid, {'fn': name}, seed, skip=e3_known.get(name))
             bounded.append({'name': 'e3/' + name, 'bound': 'enumerator (see replay/src/searches.rs)', 'status': 'failed' if rp.get('found') else 'held'})
             if rp.get('found'):
                 real_violations.append({'obligation': 'e3/%s' % name, 'kind': 'bounded-stand-in', 'fn': name,
